@@ -205,6 +205,23 @@ var progs = []prog{
 			s.rw.RUnlock()
 		}}
 	}, func(s *state) string { return fmt.Sprint(s.r[0], s.r[1]) }},
+	{false, "recursive read lock against a writer (sync.RWMutex blocks new readers once a writer is in line)", func(s *state) []func() {
+		return []func(){func() {
+			s.rw.RLock()
+			vrt.Yield("between the two read locks")
+			if s.rw.TryRLock() { // a blocking RLock here deadlocks iff the writer got in line in between
+				s.r[0] = 1
+				s.rw.RUnlock()
+			} else {
+				s.r[0] = -1 // "would deadlock"
+			}
+			s.rw.RUnlock()
+		}, func() {
+			s.rw.Lock()
+			s.x = 5
+			s.rw.Unlock()
+		}}
+	}, func(s *state) string { return fmt.Sprint(s.r[0], s.x) }},
 	{false, "buffered channel, plain body written after the send", func(s *state) []func() {
 		return []func(){func() {
 			m := &msg{id: 1, body: 1}
